@@ -624,6 +624,17 @@ def j7_positional_settings(ctx) -> None:
                         and all(_param_default(m.node, a.id) is not None for m in ms):
                     ctx.violation("J7", c, f"{fi.qualname}: `{norm(c)[:90]}` passes `{a.id}` as parameter `{pn[i]}` of {ms[0].qualname} (declared order: {', '.join(pn)}) "
                                   f"and leaves the parameter `{a.id}` at its default: the value arrives under another name")
+    # a keyword that is given another parameter of the enclosing function although the function has a parameter of the
+    # keyword's own name (`possibly_empty=inferrable` in a constructor that takes both)
+    for fi in P.all_functions():
+        ps = set(fi.params())
+        for c in walk_local(fi.node):
+            if not isinstance(c, ast.Call):
+                continue
+            for k in c.keywords:
+                if k.arg and isinstance(k.value, ast.Name) and k.value.id != k.arg and k.arg in ps and k.value.id in ps:
+                    ctx.violation("J7", k.value, f"{fi.qualname}: `{norm(c)[:70]}` passes the parameter `{k.value.id}` as `{k.arg}` although {fi.qualname} has a parameter `{k.arg}` "
+                                  f"of its own, which is now ignored: the two settings are tied together")
     if nm_calls < 50:
         ctx.floor("J7", 99)
     if n < 10:
@@ -1067,6 +1078,11 @@ def j11_pack_builders_carry_everything(ctx) -> None:
                               "over from this pack")
             else:
                 ctx.ok("J11", f"StrategyPack.{m.name} passes every constructor setting on")
+            # a setting that is carried over as it is comes from the attribute of the same name
+            for k in c.keywords:
+                if k.arg in params and is_self_attr(k.value) and k.value.attr in params and k.value.attr != k.arg:
+                    ctx.violation("J11", k.value, f"StrategyPack.{m.name} passes `self.{k.value.attr}` as `{k.arg}`: the new pack's {k.arg} are this pack's {k.value.attr}, "
+                                  f"and this pack's own {k.arg} are lost")
     # a pack rebuilt elsewhere from the parts of another pack
     for fi in P.all_functions():
         if fi.cls is cls:
@@ -1087,3 +1103,31 @@ def j11_pack_builders_carry_everything(ctx) -> None:
                     ctx.ok("J11", f"{fi.qualname} rebuilds a pack from all the parts of `{srcs[0]}`")
     if n < 6:
         ctx.floor("J11", 99)
+
+
+def j12_reader_admits_every_writer(ctx) -> None:
+    """`strategy_from_dict` loads whatever a `to_jsonable` that writes the key 'strategy_class'
+    has saved.  Its sanity assertion on the loaded class admits every family that writes such
+    dictionaries (strategies *and* strategy factories): narrower, the packs and strategies that
+    were saved by the other family cannot be loaded back."""
+    P = ctx.P
+    rd = P.need_function("strategies.strategy", "strategy_from_dict")
+    f = rd.node
+    ctx.analysed(rd)
+    writers = sorted({cls.name for cls in P.classes.values() for m in [cls.methods.get("to_jsonable")] if m is not None
+                      and any(isinstance(x, ast.Constant) and x.value == "strategy_class" for x in ast.walk(m.node))})
+    if len(writers) < 2:
+        raise AnalysisError(f"J12: expected two families writing 'strategy_class', found {writers}")
+    tests = [c for a in walk_local(f) if isinstance(a, ast.Assert) for c in ast.walk(a.test) if isinstance(c, ast.Call) and norm(c.func) == "issubclass" and len(c.args) == 2]
+    tests += [c for i in walk_local(f) if isinstance(i, ast.If) for c in ast.walk(i.test) if isinstance(c, ast.Call) and norm(c.func) == "issubclass" and len(c.args) == 2]
+    if not tests:
+        ctx.ok("J12", "strategy_from_dict does not restrict the class it loads")
+        return
+    for c in tests:
+        admitted = {norm(e).split(".")[-1] for e in (c.args[1].elts if isinstance(c.args[1], ast.Tuple) else [c.args[1]])}
+        missing = [w for w in writers if not any(P.classes.get(a) in P.mro(P.classes[w]) for a in admitted if a in P.classes)]
+        if missing:
+            ctx.violation("J12", c, f"strategy_from_dict admits only {sorted(admitted)}; {missing} also write dictionaries with 'strategy_class' (their to_jsonable), so a pack "
+                          "or strategy saved by them is refused when it is loaded back")
+        else:
+            ctx.ok("J12", f"strategy_from_dict admits every family that writes 'strategy_class' dictionaries ({', '.join(writers)})")
